@@ -9,7 +9,7 @@
    counts, all lists of random draws. *)
 From Coq Require Import ZArith NArith List Bool.
 From Tup Require Import Lib.IdSpaceTy Spec.IdLayoutSpec Model.IdSpace
-  Proofs.IdLayoutFacts Proofs.IdSpaceFacts Proofs.IdEnumFacts Proofs.IdGenFacts Proofs.IdSplitFacts.
+  Proofs.IdLayoutFacts Proofs.IdSpaceFacts Proofs.IdEnumFacts Proofs.IdGenFacts Proofs.IdSplitFacts Proofs.IdStringFacts.
 Import ListNotations.
 Open Scope N_scope.
 
@@ -139,6 +139,16 @@ Theorem C10_split_cover : forall s k parts, valid_sub s -> split s k = SplitOk p
   (forall i j p q, nth_error parts i = Some p -> nth_error parts j = Some q -> (i < j)%nat -> snd p <= fst q).
 Proof. exact split_cover. Qed.
 Print Assumptions C10_split_cover.
+
+(* names: printing then parsing a space / a valid subspace gives it back (the subspace statement is
+   checked on each of the finitely many valid (b, e), 0 <= b < e <= 256, by computation) *)
+Theorem C10_space_string_roundtrip : forall sp, space_from_string (space_to_string sp) = Some sp.
+Proof. exact space_string_roundtrip. Qed.
+Print Assumptions C10_space_string_roundtrip.
+
+Theorem C10_subspace_string_roundtrip : forall s, valid_sub s -> sub_from_string (sub_to_string s) = Some s.
+Proof. exact subspace_string_roundtrip. Qed.
+Print Assumptions C10_subspace_string_roundtrip.
 
 (* the executable Spec predicates used as oracle on the implementation's outputs decide the Spec *)
 Theorem C10_oracle_decides : forall sp s id,
